@@ -36,7 +36,8 @@ fn flush(t: &Tally, out: &mut Out) {
     out.count("continuation_lists_whose_first_candidate_comes_from_the_user_list", t.ac_affected_lists);
 }
 
-const WORDS: [&str; 16] = ["amar", "as", "kotha", "ami", "onno", "amare", "asgulo", "kothay", "tumi", "(amar)", "\"as\"", "kk", "amargulo", "onnoder", "a", "bd"];
+// the last four compose Bengali emoji names on the fixed layouts (হাসি, লল, কুল, "হাসি")
+const WORDS: [&str; 20] = ["amar", "as", "kotha", "ami", "onno", "amare", "asgulo", "kothay", "tumi", "(amar)", "\"as\"", "kk", "amargulo", "onnoder", "a", "bd", "hasi", "ll", "kul", "\"hasi\""];
 const ACS: [&str; 6] = [
     r#"{"amar":"tomar","as":"ash"}"#,
     r#"{"amar":"kemon","kotha":"kOtha"}"#,
